@@ -1,12 +1,130 @@
 /-
-ArtModel.Ops.Deep — protocol handler(s) for the `deep` operation family.
-Core Lean only.  `none` = malformed line (the driver prints `bad-op`).
+ArtModel.Ops.Deep — protocol handler for the `deep` operation family: end-to-end
+DeepARTMAP / SMART histories over ℚ.  Core Lean only.  `none` = malformed line
+(the driver prints `bad-op`).
+
+Line format (one history per line, fields separated by single spaces, calls by ` # `):
+
+    deep sup|unsup MODE EPS LEVELS # CALL # CALL …
+
+  MODE    MT+ | MT- | MT0 | MT1 | MT~      (the same for every call of the history)
+  EPS     rational `p/q`
+  LEVELS  one module per level, joined by `;`, each one of
+            fuzzy:RHO:ALPHA:BETA:D     (D = un-complemented dimension)
+            art1:RHO:L:DIM
+            art2a:RHO:ALPHA:BETA
+          (all three kernels have samples and weights in `List ℚ`, so one hierarchy
+          may mix them)
+  CALL    fit XS [Y] | pfit XS [Y] | pred XQ
+          XS = one matrix per module joined by `;` (rows `|`, entries `,`, rationals),
+          Y  = class labels `,`-joined (supervised histories only),
+          XQ = ONE matrix: the data of the last module (`predict` reads `X[-1]`).
+          SMART is the `unsup` history whose matrices are all equal.
+
+Output: one field per call, joined by ` # `:
+  after fit/pfit   cols=C0;C1;…  maps=M0;M1;…  nc=N0,N1,…  [b=B]
+                   Ci = column i of `labels_deep_` (`,`-joined), Mi = map of layer i as a
+                   list indexed by A-category (`-` = key absent), Ni = number of categories
+                   of module i, B = `module_b.labels_` of the ARTMAP layer (unsup only);
+                   `fail` when the model's `assert n_modules >= 2` fires
+  after pred       pred=P0;P1;…   (top level first, `n_layers+1` vectors) or `pred=!`
+                   when the model raises.
 -/
 import ArtModel.Driver
+import ArtModel.Deep
 
 namespace Art.Ops
 
+open Art.Drv
+
+abbrev QLevel := Level (List Rat) (List Rat) Rat Rat Rat
+
+def parseLevel (mode : MT) (eps : Rat) (s : String) : Option QLevel := do
+  match s.splitOn ":" with
+  | ["fuzzy", rho, alpha, beta, d] =>
+    some { K := fuzzyKernel (← parseRat alpha) (← parseRat beta) (← parseRat d)
+           cfg := ratCfg mode eps, th := ← parseRat rho }
+  | ["art1", rho, L, dim] =>
+    let dim ← dim.toNat?
+    some { K := art1Kernel (← parseRat L) dim, cfg := ratCfg mode eps, th := ← parseRat rho }
+  | ["art2a", rho, alpha, beta] =>
+    some { K := art2Kernel (← parseRat alpha) (← parseRat beta), cfg := ratCfg mode eps, th := ← parseRat rho }
+  | _ => none
+
+inductive DCall where
+  | fit (Xs : List (List (List Rat))) (y : List Nat)
+  | pfit (Xs : List (List (List Rat))) (y : List Nat)
+  | pred (xq : List (List Rat))
+
+def parseXs (s : String) : Option (List (List (List Rat))) :=
+  (s.splitOn ";").mapM (parseMat (α := Rat))
+
+def parseDCall (s : String) : Option DCall := do
+  match s.splitOn " " with
+  | ["fit", xs] => some (.fit (← parseXs xs) [])
+  | ["fit", xs, ys] => some (.fit (← parseXs xs) (← (splitList ys).mapM String.toNat?))
+  | ["pfit", xs] => some (.pfit (← parseXs xs) [])
+  | ["pfit", xs, ys] => some (.pfit (← parseXs xs) (← (splitList ys).mapM String.toNat?))
+  | ["pred", xq] => some (.pred (← parseMat (α := Rat) xq))
+  | _ => none
+
+def showCols (cols : List (List Nat)) : String :=
+  if cols.isEmpty then "-" else ";".intercalate (cols.map showNats)
+
+def showLayers (mods : List (ArtState (List Rat))) (layers : List (SMapState (List Rat))) : String :=
+  let maps := if layers.isEmpty then "-" else ";".intercalate (layers.map (fun s => showMap s.map))
+  s!"cols={showCols (labelsDeep layers)} maps={maps} nc={showNats (mods.map (·.W.length))}"
+
+def showPred (p : Option (List (List Nat))) : String :=
+  match p with
+  | some cols => "pred=" ++ showCols cols
+  | none => "pred=!"
+
+def lastKernel (Ls : List QLevel) : Kernel (List Rat) (List Rat) Rat Rat :=
+  match Ls.getLast? with
+  | some L => L.K
+  | none => fuzzyKernel 0 1 1
+
+def runSup (Ls : List QLevel) : List (SMapState (List Rat)) → List DCall → List String
+  | _, [] => []
+  | _, .fit Xs y :: cs =>
+    let st' := deepFitSup Ls Xs y
+    showLayers (st'.map (·.a)) st' :: runSup Ls st' cs
+  | st, .pfit Xs y :: cs =>
+    let st' := deepPartialFitSup Ls st Xs y
+    showLayers (st'.map (·.a)) st' :: runSup Ls st' cs
+  | st, .pred xq :: cs => showPred (deepPredict (lastKernel Ls) st xq) :: runSup Ls st cs
+
+def showUnsup : Option (DeepUnsup (List Rat)) → String
+  | none => "fail"
+  | some d => s!"{showLayers (d.top.b :: d.layers.map (·.a)) d.layers} b={showNats d.top.b.labels}"
+
+def runUnsup (Ls : List QLevel) : Option (DeepUnsup (List Rat)) → List DCall → List String
+  | _, [] => []
+  | _, .fit Xs _ :: cs =>
+    let st' := deepFitUnsup Ls Xs
+    showUnsup st' :: runUnsup Ls st' cs
+  | st, .pfit Xs _ :: cs =>
+    let st' := deepPartialFitUnsup Ls st Xs
+    showUnsup st' :: runUnsup Ls st' cs
+  | st, .pred xq :: cs =>
+    showPred (st.bind (fun d => deepPredict (lastKernel Ls) d.layers xq)) :: runUnsup Ls st cs
+
 /-- handler for lines starting with `deep `; `a` = the remaining space-separated fields -/
-def deep (_a : List String) : Option String := none
+def deep (a : List String) : Option String := do
+  let line := " ".intercalate a
+  match line.splitOn " # " with
+  | [] => none
+  | hd :: callStrs =>
+    match hd.splitOn " " with
+    | [kind, mode, eps, levels] =>
+      let mode ← parseMT mode
+      let eps ← parseRat eps
+      let Ls ← (levels.splitOn ";").mapM (parseLevel mode eps)
+      let calls ← callStrs.mapM parseDCall
+      if kind == "sup" then some (" # ".intercalate (runSup Ls [] calls))
+      else if kind == "unsup" then some (" # ".intercalate (runUnsup Ls none calls))
+      else none
+    | _ => none
 
 end Art.Ops
